@@ -26,6 +26,8 @@ RULE = ("cases = (a) field tuples in and around the legal ranges: month "
 DECIDING = ["ctor.post", "tz.post", "parse.grid", "parse.fuzz"]
 MIN_EVALS = {"ctor.post": 8000, "tz.post": 800, "parse.grid": 3000,
              "parse.fuzz": 15000}
+MIN_EVALS_THOROUGH = {"ctor.post": 20000, "tz.post": 800,
+                      "parse.grid": 12000, "parse.fuzz": 150000}
 EXHAUSTIVE = {
     "thorough": "constructor grids listed in the rule (month x day, "
                 "day-of-year, week x weekday per year type and mode; hour x "
